@@ -235,6 +235,7 @@ class OrthoCase:
 
 def execute_l1(run, cov, log):
     c = OrthoCase(run, cov, log)
+    refined = []
     try:
         sess = c.session()
         for op in run['ops']:
@@ -243,12 +244,15 @@ def execute_l1(run, cov, log):
             if op['op'] == 'solve':
                 c.solve_and_check(sess, op)
             elif op['op'] == 'refine':
+                from .hh2sim import _NoCov
                 for o in op['ops']:
-                    meshsim.apply_op(sess[0], o, cov.__class__(), {
+                    meshsim.apply_op(sess[0], o, _NoCov(), {
                         'compare': False, 'model': True}, [])
+                refined.extend(op['ops'])
+                cov.inc('probe.operator_outlives_refinement')
             elif op['op'] == 'restart':
+                c.run = dict(run, history=list(run['history']) + refined)
                 sess = c.session()
-                run['history'] = run['history']
     except meshsim.Finding as f:
         raise SkipRun('foreign-mesh-' + f.kind)
     finally:
@@ -294,7 +298,27 @@ def gen_l1(rng, params):
         mm.adopt(trial.leaves)
         hist.append(op)
     ops = []
-    n_ops = rng.choice([1, 1, 2])
+    n_ops = rng.choice([1, 2, 2])
+
+    def more_refinement():
+        """The operator objects outlive a refinement, as in the driver loop
+        from its second iteration on."""
+        new = []
+        for _ in range(rng.randint(1, 3)):
+            lf = rng.choice(mm.canonical())
+            op = {'op': 'bisect',
+                  'pt': [(lf[0] + lf[1]) // 2, (lf[2] + lf[3]) // 2],
+                  'axis': rng.choice([0, 0, 1, 2])}
+            trial = mm.copy()
+            meshsim.model_apply(case, trial, op, 4000)
+            if any((case.phys(b)[3] - case.phys(b)[2])**2 /
+                   (case.phys(b)[1] - case.phys(b)[0]) > 32
+                   for b in trial.leaves) or len(trial.leaves) > target + 12:
+                continue
+            mm.adopt(trial.leaves)
+            new.append(op)
+        return new
+
     for k in range(n_ops):
         f = {}
         if rng.random() < 0.15:
@@ -309,8 +333,14 @@ def gen_l1(rng, params):
         if f:
             op['faults'] = f
         ops.append(op)
-        if k + 1 < n_ops and rng.random() < 0.5:
-            ops.append({'op': 'restart'})
+        if k + 1 < n_ops:
+            r = rng.random()
+            if r < 0.35:
+                ops.append({'op': 'restart'})
+            elif r < 0.85:
+                new = more_refinement()
+                if new:
+                    ops.append({'op': 'refine', 'ops': new})
     return {'layer': 'L1', 'problem': problem, 'domain': domain,
             'pw_exact': rng.random() < 0.5, 'history': hist, 'ops': ops}
 
